@@ -163,6 +163,7 @@ type Injector struct {
 	Doc      string
 	RawSig   string // verbatim result list (C09)
 	After    string // raw declarations written after this injector in its file (copied to wire_gen.go by wire)
+	ResultNames []string // names of the results in the injector declaration (all or none)
 }
 
 // Program is one case.
